@@ -49,6 +49,9 @@ def run(ck):
                        "events delivered there)")
     from rules.c01 import adapters
     adapters(ck, only_sink_rid="C03-O12")
+    ck.rule("C03-O13", "a message that leaves the logger thread through a queued signal arrives: LogMessage is a registered meta-type under the name the signal's parameter carries")
+    from rules.oth import metatype_registered
+    metatype_registered(ck, F, "C03-O13")
     for inst in sorted([F.flat(f) for f in F.fn_all(OT + "::process") if f.d.get("inst")], key=lambda f: f.name):
         handoff(ck, inst)
     ck.require(len([f for f in F.fn_all(OT + "::process") if f.d.get("inst")]) >= 2, "OwnThreadHandler instantiations not found")
